@@ -321,7 +321,10 @@ def Sim.svcStep (s : Sim) (j : Json) : Option (Sim × Json) :=
         | some cd => acc.updateSnapshot duid cd.name
         | none => acc) st1
       (st2.withLeftovers left (jobs.map (·.1)), r, ns)
-    let (st1, r1, ns1) := send s.store
+    -- a request that could not take the lock of its key (it waited behind a request in progress until its own deadline):
+    -- every pack is answered with PushPullAbortionOfServer, nothing is read or written
+    let lockRefused (p : Pack) : Pack := errorPack { p with ops := [] } 300
+    let (st1, r1, ns1) := if getB j "lockfail" then (s.store, Rpc.ok (packs.map lockRefused), []) else send s.store
     let (st2, r, ns, extra) : Store × Rpc (List Pack) × List Notification × List (String × Json) :=
       if fault = "dup" then
         let (st2, r2, ns2) := send st1
